@@ -1068,10 +1068,29 @@ def c12(tier, seed):
         H.new()
         H.decode(pg.intra_picture(rng, sor_hdr(rng, "I", 0, w, h, ver), big=False, shape="dense"))
         for k in range(2):
-            p = pg.inter_picture(rng, sor_hdr(rng, "P", k + 1, w, h, ver), big=False, shape="sparse", mix=[1, 5, 1, 5, 1, 0, 2])
+            p = pg.inter_picture(rng, sor_hdr(rng, "P", k + 1, w, h, ver), big=False, shape="sparse", mix=[2, 5, 1, 5, 2, 2, 2])
             for m in p["mbs"]:
                 if m["k"] == "mb":
                     m["mvd"] = [[rng.randrange(-32, 32), rng.randrange(-32, 32)] for _ in m["mvd"]]
+            H.decode(p)
+    # every kind of neighbour that contributes a ZERO candidate (not coded, INTRA, INTRA+Q) placed between predicted macroblocks
+    # with large vectors, in every column of a 3 x 2 grid: what such a macroblock leaves behind for its neighbours is zero,
+    # whatever its own surroundings predict
+    for i, zk in enumerate(["skip", 3, 4] * (2 if tier == "quick" else 40)):
+        for col in range(3):
+            ver = (i + col) % 2
+            H.new()
+            H.decode(pg.intra_picture(rng, sor_hdr(rng, "I", 0, 48, 32, ver), big=False, shape="dense"))
+            p = dict(sor_hdr(rng, "P", 1, 48, 32, ver))
+            mbs = []
+            for j in range(6):
+                if j == col:
+                    mbs.append({"k": "skip"} if zk == "skip" else pg.coded_mb(rng, zk, ver == 1, big=False))
+                else:
+                    t = rng.choice([0, 0, 2, 1, 5])
+                    nmv = 4 if t in (2, 5) else 1
+                    mbs.append(pg.coded_mb(rng, t, ver == 1, mvd=[[rng.choice([-20, -9, 7, 13, 21]), rng.choice([-17, -6, 5, 11, 19])] for _ in range(nmv)], big=False))
+            p["mbs"] = mbs
             H.decode(p)
     npics = sum(1 for c in H.cmds if c["op"] == "decode")
     enc = run.encode(H.cmds)
@@ -1198,6 +1217,14 @@ def c10(tier, seed):
                 continue
             blocks = [rng.choice(pool[k]) for k in sorted(pool) for _ in range(2 if tier == "quick" else 12)]
             cmds.append({"op": "idct", "set": "cropped-plane", "cw": cw, "ch": ch, "blocks": blocks})
+    # the all-zero block handed over as a general block right after blocks of every other kind, in one call
+    zf = {"k": "full", "c": [0] * 64}
+    for rep in range(6 if tier == "quick" else 100):
+        blocks = []
+        for k in ("full", "horiz", "vert", "dc", "full", "zero", "full"):
+            if pool.get(k):
+                blocks += [rng.choice(pool[k]), zf]
+        cmds.append({"op": "idct", "set": "mixed-batch", "batch": True, "per_line": rng.choice([1, 2, len(blocks)]), "blocks": blocks})
     kinds_ = sorted(pool)
     nbatch = 60 if tier == "quick" else 3000
     for i in range(nbatch):
